@@ -1,12 +1,16 @@
 pub mod c05;
+pub mod c12;
+pub mod c17;
 
 use crate::engine::Engine;
 
 pub fn engine(id: &str) -> Option<&'static dyn Engine> {
     match id {
         "C05" => Some(&c05::C05),
+        "C12" => Some(&c12::C12),
+        "C17" => Some(&c17::C17),
         _ => None,
     }
 }
 
-pub const ALL: &[&str] = &["C05"];
+pub const ALL: &[&str] = &["C05", "C12", "C17"];
